@@ -238,6 +238,10 @@ pub enum Pay {
 	/// a minimal valid Mapbox vector tile: one layer named after the set's tag, one point
 	/// feature whose id and string property encode the coordinate
 	Mvt,
+	/// the same tile as `Mvt`, written the way other vector tile writers do (layer fields in the
+	/// order of the specification's example: version first, explicit `extent = 4096`, feature
+	/// type before the tags): valid MVT, but not a fixed point of the repository's encoder
+	MvtForeign,
 }
 
 #[derive(Clone, Debug, PartialEq, Eq, Serialize, Deserialize)]
@@ -422,6 +426,7 @@ impl Pay {
 				v
 			}
 			Pay::Mvt => mvt_min(tag, c),
+			Pay::MvtForeign => mvt_min_layout(tag, c, true),
 			Pay::SomeEmpty => {
 				if index % 3 == 1 {
 					vec![]
@@ -461,23 +466,40 @@ pub fn mvt_feature_id(c: &Coord) -> u64 {
 
 /// minimal valid vector tile (MVT 2.1): layer `name`, one point feature, one string property
 pub fn mvt_min(name: &str, c: &Coord) -> Vec<u8> {
-	let mut feature = vec![];
-	pb_uint(&mut feature, 1, mvt_feature_id(c));
-	pb_bytes(&mut feature, 2, &[0, 0]);
-	pb_uint(&mut feature, 3, 1);
+	mvt_min_layout(name, c, false)
+}
+
+/// `foreign`: same content, field order of the specification's example and explicit defaults
+pub fn mvt_min_layout(name: &str, c: &Coord, foreign: bool) -> Vec<u8> {
 	let mut geom = vec![];
 	pb_varint(&mut geom, 9); // MoveTo, count 1
 	pb_varint(&mut geom, ((c.x % 2048) as u64) << 1);
 	pb_varint(&mut geom, ((c.y % 2048) as u64) << 1);
+	let mut feature = vec![];
+	pb_uint(&mut feature, 1, mvt_feature_id(c));
+	if foreign {
+		pb_uint(&mut feature, 3, 1);
+		pb_bytes(&mut feature, 2, &[0, 0]);
+	} else {
+		pb_bytes(&mut feature, 2, &[0, 0]);
+		pb_uint(&mut feature, 3, 1);
+	}
 	pb_bytes(&mut feature, 4, &geom);
 	let mut value = vec![];
 	pb_bytes(&mut value, 1, format!("{name} {c}").as_bytes());
 	let mut layer = vec![];
+	if foreign {
+		pb_uint(&mut layer, 15, 2);
+	}
 	pb_bytes(&mut layer, 1, name.as_bytes());
 	pb_bytes(&mut layer, 2, &feature);
 	pb_bytes(&mut layer, 3, b"k");
 	pb_bytes(&mut layer, 4, &value);
-	pb_uint(&mut layer, 15, 2);
+	if foreign {
+		pb_uint(&mut layer, 5, 4096);
+	} else {
+		pb_uint(&mut layer, 15, 2);
+	}
 	let mut tile = vec![];
 	pb_bytes(&mut tile, 3, &layer);
 	tile
